@@ -40,6 +40,10 @@ pub struct TestBlock {
     /// if not empty: the command is `cat <<EOF` with these lines as `> ` continuation lines (they are also the output)
     #[serde(default)]
     pub heredoc: Vec<String>,
+    /// `{detached: true}`: the command (`sleep 0.1`) is started and not waited for; the block has no
+    /// expectations and must stay as written
+    #[serde(default)]
+    pub detached: bool,
 }
 
 #[derive(Clone, Debug, Serialize, Deserialize)]
@@ -53,6 +57,10 @@ pub struct Case {
     /// update is invoked on two documents: an all-passing one first, then this one
     #[serde(default)]
     pub with_unchanged_first: bool,
+    /// the document is written in Latin-1: every non-ASCII character (they occur outside scrut blocks
+    /// only) becomes one byte 0x80..0xFF, so the file is not UTF-8
+    #[serde(default)]
+    pub latin1: bool,
 }
 
 fn default_lang() -> String {
@@ -70,6 +78,9 @@ fn sh_word(w: &str) -> String {
 impl TestBlock {
     /// the output lines of the command
     fn out_lines(&self) -> Vec<String> {
+        if self.detached {
+            return vec![];
+        }
         if self.heredoc.is_empty() {
             self.words.clone()
         } else {
@@ -78,6 +89,9 @@ impl TestBlock {
     }
     /// `$ ...` line plus `> ...` continuation lines
     fn command_lines(&self) -> Vec<String> {
+        if self.detached {
+            return vec!["$ sleep 0.1".to_string()];
+        }
         if self.heredoc.is_empty() {
             return vec![format!("$ {}", self.command())];
         }
@@ -112,6 +126,10 @@ impl TestBlock {
         let mut v = vec![format!("{}{lang}{}", "`".repeat(fence), self.config)];
         v.extend(self.comments.iter().cloned());
         v.extend(self.command_lines());
+        if self.detached {
+            v.push("`".repeat(fence));
+            return v;
+        }
         match self.outcome.as_str() {
             "wrong-output" => {
                 for w in &self.out_lines() {
@@ -134,7 +152,7 @@ impl TestBlock {
         v
     }
     fn passes(&self) -> bool {
-        self.outcome == "pass" || (self.outcome == "missing-output" && self.out_lines().is_empty())
+        self.detached || self.outcome == "pass" || (self.outcome == "missing-output" && self.out_lines().is_empty())
     }
 }
 
@@ -246,6 +264,24 @@ fn split_doc(text: &str, lang: &str) -> (Vec<String>, Vec<FoundBlock>) {
     (outside, blocks)
 }
 
+/// the bytes of a document: UTF-8, or one byte per character for a Latin-1 document
+fn encode(text: &str, latin1: bool) -> Option<Vec<u8>> {
+    if !latin1 {
+        return Some(text.as_bytes().to_vec());
+    }
+    text.chars().map(|c| u8::try_from(c as u32).ok()).collect()
+}
+
+/// the text of a document file, decoded the way it was encoded
+fn read_doc(path: &std::path::Path, latin1: bool) -> String {
+    let bytes = std::fs::read(path).unwrap_or_default();
+    if latin1 {
+        bytes.iter().map(|b| *b as char).collect()
+    } else {
+        String::from_utf8_lossy(&bytes).to_string()
+    }
+}
+
 const WORDS: &[&str] = &["alpha", "beta", "gamma", "delta", "x1", "hello-world", "ok", "zeta", "alpha", "beta", "```text", "````", "```", "`tick`", "two words"];
 /// output lines that look like a command (continuation) and need escaping as well; only used as first output line of
 /// tests whose expectations are wrong anyway (a `> ...` first expectation line would itself be read as a continuation)
@@ -269,8 +305,26 @@ fn gen_test(rng: &mut Rng) -> TestBlock {
         code,
         outcome,
         heredoc: if rng.chance(1, 5) { (0..1 + rng.below(4)).map(|_| rng.pick(HEREDOC_LINES).to_string()).collect() } else { vec![] },
+        detached: false,
     }
 }
+
+fn gen_detached(rng: &mut Rng) -> TestBlock {
+    TestBlock {
+        fence: *rng.pick(&[3usize, 3, 4]),
+        config: rng.pick(&[" {detached: true}", " {detached: true}", " {detached: true, timeout: 9s}"]).to_string(),
+        comments: (0..rng.below(2)).map(|i| format!("# background job {i}")).collect(),
+        words: vec![],
+        code: 0,
+        outcome: "pass".into(),
+        heredoc: vec![],
+        detached: true,
+    }
+}
+
+/// prose with Latin-1 characters (one byte each in a Latin-1 file, which is then not UTF-8)
+const LATIN1_LINES: &[&str] = &["Caf\u{e9} cr\u{e8}me, na\u{ef}ve fa\u{e7}ade \u{a9} 2024", "stray bytes: \u{80}\u{ff}\u{a0}\u{bf} end", "Gr\u{fc}\u{df}e aus K\u{f6}ln"];
+
 
 impl Monitor for C10e {
     type Case = Case;
@@ -282,12 +336,17 @@ impl Monitor for C10e {
     fn plan(&self, tier: Tier) -> Plan {
         let mut p = Plan::new(
             tier.pick(200, 5000),
-            "e2e: Markdown documents rendered from a block list (front-matter, headings, paragraphs with inline code, blank lines, foreign fenced blocks incl. one quoting a scrut fence, 1..5 scrut blocks with config / comments / fence length 3..5, text after the last test; LF or CRLF; with or without final newline), per-test outcome in {pass, wrong output, wrong exit code, missing output}; `scrut update --replace --assume-yes` twice, then `scrut test`; non-trivial = at least one failing test and >= 2 kinds of surrounding blocks; distinct = block-kind sequence x outcomes x crlf x final newline",
+            "e2e: Markdown documents rendered from a block list (front-matter, headings, paragraphs with inline code, blank lines, Latin-1 encoded documents (not UTF-8), `{detached: true}` tests at the first / a middle / the last position, foreign fenced blocks incl. one quoting a scrut fence, 1..5 scrut blocks with config / comments / fence length 3..5, text after the last test; LF or CRLF; with or without final newline), per-test outcome in {pass, wrong output, wrong exit code, missing output}; `scrut update --replace --assume-yes` twice, then `scrut test`; non-trivial = at least one failing test and >= 2 kinds of surrounding blocks; distinct = block-kind sequence x outcomes x crlf x final newline",
         );
         p.chunk = 2;
         p.case_timeout_s = 120;
         p.floor_nontrivial = tier.pick(40, 400);
-        p.floor_buckets = vec![("e2e:updated".into(), tier.pick(80, 2000)), ("e2e:second-update-identical".into(), tier.pick(80, 2000))];
+        p.floor_buckets = vec![
+            ("e2e:updated".into(), tier.pick(60, 1500)),
+            ("e2e:second-update-identical".into(), tier.pick(60, 1500)),
+            ("e2e:detached".into(), tier.pick(6, 150)),
+            ("e2e:non-utf8-refused".into(), tier.pick(5, 120)),
+        ];
         p
     }
 
@@ -337,6 +396,65 @@ impl Monitor for C10e {
         if !final_newline && matches!(blocks.last(), Some(Block::Blank)) {
             blocks.push(Block::Para(vec!["last line without newline".into()]));
         }
+        // a detached test at the first, a middle or the last position (others follow / precede it)
+        if rng.chance(1, 4) {
+            let idx: Vec<usize> = blocks.iter().enumerate().filter(|(_, b)| matches!(b, Block::Test(_))).map(|(i, _)| i).collect();
+            let at = match rng.below(3) {
+                0 => idx[0],
+                1 => idx[idx.len() / 2],
+                _ => idx[idx.len() - 1],
+            };
+            let d = gen_detached(rng);
+            if rng.bool() || idx.len() == 1 {
+                // an additional block, so that tests before and behind it remain
+                blocks.insert(at, Block::Test(d));
+                if idx.len() == 1 && rng.bool() {
+                    blocks.swap(at, at + 1);
+                }
+            } else {
+                blocks[at] = Block::Test(d);
+            }
+        }
+        // a document that is not UTF-8: Latin-1 bytes in prose, front-matter comment and a foreign block,
+        // and at least one test whose output changed
+        let latin1 = rng.chance(1, 6);
+        if latin1 {
+            let line = |rng: &mut Rng| rng.pick(LATIN1_LINES).to_string();
+            match rng.below(3) {
+                0 => blocks.insert(0, Block::Para(vec![line(rng)])),
+                1 => blocks.push(Block::Para(vec![line(rng), "plain last line".into()])),
+                _ => {
+                    let at = rng.below(blocks.len() + 1);
+                    blocks.insert(
+                        at,
+                        Block::Foreign {
+                            fence: 3,
+                            lang: "text".into(),
+                            body: vec![line(rng), "ascii".into()],
+                        },
+                    );
+                }
+            }
+            if let Some(Block::FrontMatter(ls)) = blocks.first_mut() {
+                ls.push(format!("# {}", rng.pick(LATIN1_LINES)));
+            } else if rng.bool() {
+                blocks.insert(0, Block::Heading(format!("# {}", rng.pick(LATIN1_LINES))));
+            }
+            let failing = blocks.iter().any(|b| matches!(b, Block::Test(t) if !t.passes()));
+            if !failing {
+                for b in blocks.iter_mut() {
+                    if let Block::Test(t) = b {
+                        if !t.detached {
+                            t.outcome = "wrong-output".into();
+                            if t.words.is_empty() && t.heredoc.is_empty() {
+                                t.words.push("changed".into());
+                            }
+                            break;
+                        }
+                    }
+                }
+            }
+        }
         let lang = if rng.chance(1, 6) { "sh" } else { "scrut" }.to_string();
         if lang == "sh" {
             // the test language is `sh`: foreign `sh` blocks would become tests, and a ```scrut block is documentation
@@ -354,6 +472,7 @@ impl Monitor for C10e {
             final_newline,
             lang,
             with_unchanged_first: rng.chance(1, 5),
+            latin1,
         }
     }
 
@@ -365,8 +484,14 @@ impl Monitor for C10e {
         let (all, outside) = render(case);
         let text = to_text(&all, case.crlf, case.final_newline);
         let tests: Vec<&TestBlock> = case.blocks.iter().filter_map(|b| if let Block::Test(t) = b { Some(t) } else { None }).collect();
+        let Some(doc_bytes) = encode(&text, case.latin1) else {
+            return Checked::out_of_scope("a Latin-1 document cannot hold characters above U+00FF");
+        };
+        if case.latin1 && std::str::from_utf8(&doc_bytes).is_ok() {
+            return Checked::out_of_scope("Latin-1 document without non-ASCII characters");
+        }
         let sb = Sandbox::new(env, "c10e");
-        sb.write_doc("doc.md", text.as_bytes());
+        sb.write_doc("doc.md", &doc_bytes);
         let wd = Duration::from_secs(60);
         let features = {
             let mut f = vec![];
@@ -409,6 +534,12 @@ impl Monitor for C10e {
             if tests.iter().any(|t| t.out_lines().iter().any(|l| l.starts_with("```"))) {
                 f.push("fence-like-output");
             }
+            if tests.iter().any(|t| t.detached) {
+                f.push("detached");
+            }
+            if case.latin1 {
+                f.push("non-utf8");
+            }
             if f.is_empty() {
                 "plain".to_string()
             } else {
@@ -442,13 +573,35 @@ impl Monitor for C10e {
         if r1.watchdog_fired {
             return Checked::inconclusive("watchdog (update 1)");
         }
+        if case.latin1 && r1.code != Some(0) && r1.code != Some(101) && r1.signal.is_none() {
+            // refusing a document that is not UTF-8 is fine as long as the file is left alone
+            let now = std::fs::read(sb.docs.join("doc.md")).unwrap_or_default();
+            if now != doc_bytes {
+                return bad(
+                    "refused-but-rewritten",
+                    format!("update rc={:?} ({}) and the file changed", r1.code, r1.stderr_str().lines().take(3).collect::<Vec<_>>().join(" | ")),
+                    &read_doc(&sb.docs.join("doc.md"), true),
+                );
+            }
+            return Checked::held()
+                .shape(true, hash_str(&format!("refused|{features}")))
+                .bucket("e2e:non-utf8-refused")
+                .bucket("near-miss");
+        }
         if r1.code != Some(0) {
             return bad("update-failed", format!("first update rc={:?}: {}", r1.code, r1.stderr_str().lines().take(5).collect::<Vec<_>>().join(" | ")), "");
         }
-        let after1 = std::fs::read_to_string(sb.docs.join("doc.md")).unwrap_or_default();
+        let after1 = read_doc(&sb.docs.join("doc.md"), case.latin1);
         let (out1, blocks1) = split_doc(&after1, &case.lang);
         if out1 != outside {
             let at = out1.iter().zip(outside.iter()).position(|(a, b)| a != b).unwrap_or(out1.len().min(outside.len()));
+            if case.latin1 && out1.get(at).is_some_and(|l| l.contains("\u{ef}\u{bf}\u{bd}")) {
+                // U+FFFD (EF BF BD) where a byte 0x80..0xFF stood: one cause, whatever else the document contains
+                return Checked::violated(
+                    "C10/e2e/non-utf8-bytes-replaced//non-utf8",
+                    format!("update rewrote bytes outside scrut blocks of a document that is not UTF-8: expected {:?}, got {:?}\n--- original ---\n{text}\n--- after ---\n{after1}", outside.get(at), out1.get(at)),
+                );
+            }
             return bad(
                 "outside-lines-changed",
                 format!("lines outside scrut blocks differ at outside-line {at}: expected {:?}, got {:?} ({} vs {} lines)", outside.get(at), out1.get(at), outside.len(), out1.len()),
@@ -492,7 +645,7 @@ impl Monitor for C10e {
         if r2.watchdog_fired {
             return Checked::inconclusive("watchdog (update 2)");
         }
-        let after2 = std::fs::read_to_string(sb.docs.join("doc.md")).unwrap_or_default();
+        let after2 = read_doc(&sb.docs.join("doc.md"), case.latin1);
         if r2.code != Some(0) || after2 != after1 {
             return bad("not-idempotent", format!("second update rc={:?} changed the document:\n--- second ---\n{after2}", r2.code), &after1);
         }
@@ -526,6 +679,8 @@ impl Monitor for C10e {
             .bucket("e2e:updated")
             .bucket("e2e:second-update-identical")
             .bucket(if any_failing { "e2e:had-failing-test" } else { "e2e:all-passing" })
+            .bucket(if tests.iter().any(|t| t.detached) { "e2e:detached" } else { "e2e:no-detached" })
+            .bucket(if case.latin1 { "e2e:non-utf8-updated" } else { "e2e:utf8" })
     }
 
     fn shrink(&self, case: &Case) -> Vec<Case> {
@@ -557,8 +712,24 @@ impl Monitor for C10e {
             c.final_newline = true;
             v.push(c);
         }
+        if case.latin1 {
+            let mut c = case.clone();
+            c.latin1 = false;
+            v.push(c);
+        }
         for (i, b) in case.blocks.iter().enumerate() {
             if let Block::Test(t) = b {
+                if t.detached {
+                    if !t.comments.is_empty() || t.fence != 3 {
+                        let mut c = case.clone();
+                        let mut t2 = t.clone();
+                        t2.comments = vec![];
+                        t2.fence = 3;
+                        c.blocks[i] = Block::Test(t2);
+                        v.push(c);
+                    }
+                    continue;
+                }
                 if !t.config.is_empty() || !t.comments.is_empty() || t.fence != 3 {
                     let mut c = case.clone();
                     let mut t2 = t.clone();
@@ -589,6 +760,6 @@ impl Monitor for C10e {
 
     fn sample(&self, case: &Case) -> serde_json::Value {
         let (all, _) = render(case);
-        json!({"crlf": case.crlf, "final_newline": case.final_newline, "document": all.join("\n")})
+        json!({"crlf": case.crlf, "final_newline": case.final_newline, "latin1": case.latin1, "document": all.join("\n")})
     }
 }
